@@ -195,7 +195,92 @@ pub fn run(cfg: &RunCfg) -> CheckReport {
         }
     });
     rep.part("ranking", json!({"pool": POOL, "max_list_len": k, "lists": ls.len(), "cutoffs": rcuts}), ex);
+    if rep.has_violation() {
+        return rep;
+    }
+    let lw = long_word_cases();
+    let ex = explore(cfg, lw.len(), |shard, acc| {
+        let (word, cands) = &lw[shard];
+        let refs: Vec<&str> = cands.iter().map(|s| s.as_str()).collect();
+        // single candidates at their own ratio and its neighbours
+        for c in &refs {
+            let r = ratio(word, c);
+            for cut in [r, f32::from_bits(r.to_bits() + 1), f32::from_bits(r.to_bits().saturating_sub(1)), r * 0.999, 0.5] {
+                let one = [*c];
+                match check_call(word, &one, 1, cut) {
+                    Ok(fp) => {
+                        if acc.want_sample() {
+                            acc.sample(json!({"word": word, "candidates": one, "n": 1, "cutoff": cut}));
+                        }
+                        acc.ok(r >= cut, 1, fp);
+                    }
+                    Err(e) => acc.violation(|| {
+                        (json!({"word": word, "candidates": one, "n": 1, "cutoff_bits": cut.to_bits()}), e)
+                    }),
+                }
+                if acc.stop() {
+                    return;
+                }
+            }
+        }
+        // the whole candidate list, several n and cutoffs (many equal-ratio ties)
+        for n in [1usize, 3, 10, refs.len() + 1] {
+            for cut in [0.0f32, 0.3, 0.5, 0.6, 0.75, 0.9] {
+                match check_call(word, &refs, n, cut) {
+                    Ok(fp) => acc.ok(true, 1, fp),
+                    Err(e) => acc.violation(|| {
+                        (json!({"word": word, "candidates": refs, "n": n, "cutoff_bits": cut.to_bits()}), e)
+                    }),
+                }
+                if acc.stop() {
+                    return;
+                }
+            }
+        }
+    });
+    rep.part("long-words", json!({"words": lw.len(), "note": "enumerated family: words of 7..45 chars (periodic, natural, multi-byte), candidates = prefixes / suffixes / subsequences / perturbed copies, cutoffs = each candidate's own ratio and its f32 neighbours; plus whole lists with many ties"}), ex);
     rep
+}
+
+/// longer words (7..=45 chars): periodic and natural-looking words, incl. multi-byte ones;
+/// candidates are prefixes, suffixes, subsequences and perturbed copies; cutoffs are exactly
+/// the candidate's own ratio and its two f32 neighbours (where pre-filter rounding bites)
+fn long_word_cases() -> Vec<(String, Vec<String>)> {
+    let bases: [&str; 8] = [
+        "abcabcabcabcabcabcabcabcabcabcabcabcabcabcabc",
+        "aaaaaaaaaaaaaaaaaaaaaaaaaaaaaaaaaaaaaaaaaaaaa",
+        "internationalizationalization",
+        "gr\u{f6}\u{df}enordnungsm\u{e4}\u{df}igkeitsbetrachtung",
+        "the quick brown fox jumps over the lazy dog",
+        "\u{65e5}\u{672c}\u{8a9e}\u{306e}\u{30c6}\u{30ad}\u{30b9}\u{30c8}\u{3092}\u{6bd4}\u{8f03}\u{3059}\u{308b}",
+        "abababababababababababababababababab",
+        "xyzzyxyzzyxyzzyxyzzyxyzzyxyzzy",
+    ];
+    let mut out = vec![];
+    for b in bases.iter() {
+        let chars: Vec<char> = b.chars().collect();
+        for wl in (7..=chars.len()).step_by(2) {
+            let word: String = chars[..wl].iter().collect();
+            let mut cands: Vec<String> = vec![];
+            for cl in 1..=wl {
+                cands.push(chars[..cl].iter().collect()); // prefix
+                cands.push(chars[wl - cl..wl].iter().collect()); // suffix
+                if cl % 3 == 0 {
+                    cands.push(chars[..wl].iter().step_by(wl / cl.max(1) + 1).collect()); // subsequence
+                }
+            }
+            // perturbed copies
+            let mut p = chars[..wl].to_vec();
+            p[wl / 2] = '#';
+            cands.push(p.iter().collect());
+            p.insert(1, '#');
+            cands.push(p.iter().collect());
+            cands.sort();
+            cands.dedup();
+            out.push((word, cands));
+        }
+    }
+    out
 }
 
 pub fn replay(case: &Value) -> Result<String, String> {
